@@ -283,6 +283,10 @@ impl Searcher {
         mut beta: i32,
         context: &mut SearchContext,
     ) -> Option<SearchResult> {
+        #[cfg(flounder_verif)]
+        if crate::verif_seam::buggify(crate::verif_seam::SITE_TT_PROBE_MISS) {
+            return None;
+        }
         let position_hash = self.zobrist.hash(board);
         let entry = self.transposition_table.retrieve(position_hash)?;
 
@@ -296,6 +300,12 @@ impl Searcher {
 
         match entry.bounds {
             Bounds::Exact => {
+                #[cfg(flounder_verif)]
+                crate::verif_seam::observe(crate::verif_seam::Event::TtHit {
+                    entry_depth: entry.depth,
+                    requested_depth: depth,
+                    exact: true,
+                });
                 return Some(SearchResult::new(entry.eval, entry.best_move));
             }
             Bounds::Lower => {
@@ -307,6 +317,12 @@ impl Searcher {
         }
 
         if alpha >= beta {
+            #[cfg(flounder_verif)]
+            crate::verif_seam::observe(crate::verif_seam::Event::TtHit {
+                entry_depth: entry.depth,
+                requested_depth: depth,
+                exact: false,
+            });
             return Some(SearchResult::new(entry.eval, entry.best_move));
         }
 
@@ -322,6 +338,10 @@ impl Searcher {
         depth: u8,
         bound: Bounds,
     ) {
+        #[cfg(flounder_verif)]
+        if crate::verif_seam::buggify(crate::verif_seam::SITE_TT_STORE_DROP) {
+            return;
+        }
         let position_hash = self.zobrist.hash(board);
         self.transposition_table
             .store(position_hash, result.score, result.best_move, depth, bound);
